@@ -1,7 +1,8 @@
 // Command extract is the translator of the verification framework: it reads the
 // Go (and Go assembly) sources of /repo and of the pinned iota.go dependency and
 // regenerates /verif/lean/Iota/Gen/*.lean from them: constants, tables, call-site
-// arguments, small straight-line integer functions translated as code, the
+// arguments, small straight-line integer functions translated as code (translateFunc), functions with
+// range loops over byte/int slices translated as code with 64-bit int semantics (translateLoopFuncs, loops*.go), the
 // transform_amd64.s instruction list and the synchronisation skeleton of Mine.
 //
 // Nothing here knows what the values *should* be; the expectations live in the
@@ -31,6 +32,7 @@ var (
 	repo      = flag.String("repo", "/repo", "repository root")
 	out       = flag.String("out", "/verif/lean/Iota/Gen", "output directory")
 	expectOut = flag.String("expect", "", "write the snapshot of recorded source texts to this Lean file")
+	trOnly    = flag.String("translate", "", "debugging/tests: print the loop translation of `dir:func1,func2,…` and exit")
 	modDir    = flag.String("iotago", "", "directory of github.com/iotaledger/iota.go (default: module cache, version from go.mod)")
 )
 
@@ -825,9 +827,13 @@ type genFile struct {
 	b    strings.Builder
 }
 
-func newGen(name string, imports ...string) *genFile {
+func newGen(name string, imports ...string) *genFile { return newGenHdr(name, "", imports...) }
+
+// newGenHdr is newGen with an additional header comment (assumptions of the translated code).
+func newGenHdr(name, header string, imports ...string) *genFile {
 	g := &genFile{name: name}
 	g.b.WriteString("-- GENERATED by /verif/go/cmd/extract from the current /repo working tree. Do not edit.\n")
+	g.b.WriteString(header)
 	for _, im := range imports {
 		g.b.WriteString("import " + im + "\n")
 	}
@@ -971,6 +977,14 @@ func boolLean(b bool) string {
 
 func main() {
 	flag.Parse()
+	if *trOnly != "" {
+		i := strings.LastIndex(*trOnly, ":")
+		if i < 0 {
+			die("-translate wants dir:func1,func2,…")
+		}
+		fmt.Print(translateLoopFuncs(load((*trOnly)[:i]), strings.Split((*trOnly)[i+1:], ",")...))
+		return
+	}
 	if err := os.MkdirAll(*out, 0o755); err != nil {
 		die("%v", err)
 	}
